@@ -295,10 +295,20 @@ def answersBeforeRelease : List Eff → Bool
   | .finishSucc :: _ => false
   | _ :: rest => answersBeforeRelease rest
 
-/-- **Every outcome is answered**: every path of the worker starts by writing `Processing`, and
-every path (worker or run-state handler) that releases the request has written its answer (Error,
-or Done/Error according to the recorded reload error) before it does so. -/
-theorem paths_answered :
+/-- Full statement of the "answered" clause (NOT proved): a settled running daemon shows an answer
+(Done / Error), or a client's fresh ReloadSend, in the progress file — never a left-over
+`Processing` or busy report.  The busy half is `settled_is_clean`; what is missing is the dynamic
+invariant "while the file says Processing, the holder of the request still has its answer ahead",
+needed to exclude a left-over `Processing` under all interleavings (the harness measures it:
+counter `settled_but_cli_refuses`, 0 on every settled state it reaches). -/
+def answered_full : Prop :=
+  ∀ s, Reachable s → s.exited = false → quiescent s = true →
+    s.progress.cliAccepts = true ∨ s.progress = .send
+
+/-- **Every outcome is answered (path-level part)**: every path of the worker starts by writing
+`Processing`, and every path (worker or run-state handler) that releases the request has written
+its answer (Error, or Done/Error according to the recorded reload error) before it does so. -/
+theorem answered_partial :
     (∀ p ∈ workerPaths, (p.take 3).contains (.setProg .processing) = true ∧ answersBeforeRelease p = true) ∧
     (∀ p ∈ handlerPaths, answersBeforeRelease p.effs = true) := by
   decide
